@@ -245,3 +245,43 @@ def fresh_hvsrpy():
     if not origin.startswith(REPO + os.sep):
         raise RuntimeError(f"fresh hvsrpy imported from {origin}, expected under {REPO}")
     return copy
+
+
+# -- child interpreter with another default text encoding ---------------------------------------------------
+
+_FOREIGN = {}
+
+
+def foreign_check(pid, case, env=None):
+    """Evaluate ``case`` with property ``pid`` in a persistent child interpreter whose default text encoding is ASCII
+    (LC_ALL=C, UTF-8 mode off): the situation of a Windows / legacy-locale installation, where ``open()`` without an
+    explicit encoding does not speak UTF-8.  Raises Violation with the child's message; harness errors propagate as
+    RuntimeError."""
+    import atexit
+    import subprocess
+    key = pid
+    w = _FOREIGN.get(key)
+    if w is None or w.poll() is not None:
+        e = dict(os.environ)
+        e.update(LC_ALL="C", LANG="C", PYTHONUTF8="0", PYTHONCOERCECLOCALE="0", PYTHONIOENCODING="utf-8:surrogatepass")
+        e.update(env or {})
+        e["PYTHONPATH"] = VERIF_DIR + os.pathsep + e.get("PYTHONPATH", "")
+        w = subprocess.Popen([sys.executable, "-m", "vf.worker", pid], cwd=VERIF_DIR, env=e, stdin=subprocess.PIPE,
+                             stdout=subprocess.PIPE, stderr=subprocess.DEVNULL, text=True, encoding="utf-8", errors="surrogatepass")
+        ready = json.loads(w.stdout.readline() or "{}")
+        if ready.get("status") != "ready":
+            raise RuntimeError(f"foreign-locale worker did not start: {ready}")
+        w.encoding_name = ready.get("encoding")
+        _FOREIGN[key] = w
+        atexit.register(lambda: (w.stdin.close(), w.wait(timeout=10)) if w.poll() is None else None)
+    w.stdin.write(json.dumps({"case": to_jsonable(case)}) + "\n")
+    w.stdin.flush()
+    line = w.stdout.readline()
+    if not line:
+        raise RuntimeError("foreign-locale worker died")
+    res = json.loads(line)
+    if res["status"] == "violation":
+        raise Violation(f"in an interpreter whose default text encoding is {w.encoding_name}: {res['message']}")
+    if res["status"] == "error":
+        raise RuntimeError("foreign-locale worker error:\n" + res["error"])
+    return res
